@@ -261,6 +261,8 @@ class Event:
         self._flag = False
 
     def set(self):
+        if SCHED is not None and getattr(SCHED, "yield_on_flags", False) and SCHED.me() is not None:
+            SCHED.park(("event-set",))          # opt-in yield point (fault / app-close streams): another thread may run first
         self._flag = True
         if SCHED is not None and SCHED.me() is not None:
             SCHED.event("event-set", SCHED.me().name)
@@ -346,12 +348,26 @@ class Empty(Exception):
     pass
 
 
+class Full(Exception):
+    pass
+
+
 class Queue:
     def __init__(self, maxsize=0):
         self.items = collections.deque()
+        self.maxsize = maxsize or 0
 
     def put(self, item, block=True, timeout=None):
-        SCHED.park(("put", item))
+        if self.maxsize > 0:
+            # a bounded queue: `put` waits for room (or raises Full)
+            if not block and len(self.items) >= self.maxsize:
+                raise Full()
+            timed_out = SCHED.park(("put", item), cond=lambda: len(self.items) < self.maxsize,
+                                   deadline=None if timeout is None else round(SCHED.clock + timeout, 6))
+            if timed_out and len(self.items) >= self.maxsize:
+                raise Full()
+        else:
+            SCHED.park(("put", item))
         self.items.append(item)
         SCHED.event("enqueue", SCHED.me().name, item)
 
@@ -388,7 +404,7 @@ class Queue:
 
 
 class QueueShim:
-    Queue, Empty = Queue, Empty
+    Queue, Empty, Full = Queue, Empty, Full
 
 
 # ---------------------------------------------------------------------------------- executor
@@ -654,6 +670,8 @@ class Socket:
         return len(part)
 
     def close(self):
+        if getattr(SCHED, "yield_on_flags", False) and SCHED.me() is not None:
+            SCHED.park(("socket-close",))
         self.close_calls += 1
         self.closed = True
         SCHED.event("socket-close")
